@@ -15,7 +15,7 @@ try:
         subprocess.run(['git', '-C', wt, 'checkout', '-q', '--', '.'], check=True)
         p = os.path.join(wt, m['file'])
         s = open(p).read()
-        if s.count(m['old']) != 1:
+        if s.count(m['old']) != m.get('count', 1):
             res.append((m['id'], 'SETUP-ERROR: old text occurs %d times' % s.count(m['old'])))
             continue
         open(p, 'w').write(s.replace(m['old'], m['new']))
